@@ -18,6 +18,9 @@ SAN_FLAGS = {
     # enum-typed field) are excluded — see DESIGN.md "UB scope"; everything else of UBSan is on.
     "asan": ["-O1", "-g", "-fsanitize=address,undefined", "-fno-sanitize=enum", "-fno-sanitize-recover=undefined",
              "-fno-omit-frame-pointer"],
+    # same with the enum check on (used where an out-of-range enum load is itself a recorded finding, e.g. KF-C10-1)
+    "asan_enum": ["-O1", "-g", "-fsanitize=address,undefined", "-fno-sanitize-recover=undefined",
+                  "-fno-omit-frame-pointer"],
     "tsan": ["-O1", "-g", "-fsanitize=thread"],
     "plain": ["-O1", "-g"],
 }
